@@ -244,4 +244,439 @@ Section Global.
         change (score_of (set_sc g2 (bk_sc g2)) (snd mc)) with (score_of g2 (snd mc)). destruct w; assumption. }
     unfold good. rewrite <- E1, <- !E2. auto.
   Qed.
+
+  (** ** the invariant of operation histories *)
+  Record GI (g : book) : Prop := mkGI {
+    gi_inv : Inv succ g;
+    gi_wfc : wfc (bk_sc g);
+    gi_good : forall q, In q (bk_keys g) -> good bd g (bk_sc g) q;
+    gi_par : Par (bk_depth g);
+    gi_nonneg : NonNeg (bk_depth g);
+    gi_fin : forall q, In q (bk_keys g) -> depth g q <= Z.of_nat (length (bk_keys g));
+    gi_size : Z.of_nat (length (bk_keys g)) < INT_MAX
+  }.
+
+  Lemma good_same_static : forall g1 g2 sc q,
+    bk_info g1 = bk_info g2 -> bk_children g1 = bk_children g2 -> bk_pending g1 = bk_pending g2 ->
+    bk_depth g1 = bk_depth g2 -> good bd g1 sc q -> good bd g2 sc q.
+  Proof.
+    intros g1 g2 sc q Hi Hc Hp Hd G.
+    apply (good_transfer (set_sc g1 sc) (set_sc g2 sc) q); try reflexivity; try exact G.
+    - unfold info. cbn [set_sc bk_info]. rewrite Hi. reflexivity.
+    - unfold info. cbn [set_sc bk_info]. rewrite Hi. reflexivity.
+    - unfold children. cbn [set_sc bk_children]. rewrite Hc. reflexivity.
+    - cbn [set_sc bk_pending]. rewrite Hp. reflexivity.
+    - unfold depth. cbn [set_sc bk_depth]. rewrite Hd. reflexivity.
+  Qed.
+
+  (** updateScores re-establishes the invariant when only the start node and its parents may
+      violate their equations *)
+  Lemma GI_updateScores : forall g start,
+    Inv succ g -> In start (bk_keys g) -> wfc (bk_sc g) -> Par (bk_depth g) -> NonNeg (bk_depth g) ->
+    (forall q, In q (bk_keys g) -> depth g q <= Z.of_nat (length (bk_keys g))) ->
+    Z.of_nat (length (bk_keys g)) < INT_MAX ->
+    (forall q, In q (bk_keys g) -> q <> start -> ~ In q (map snd (parents g start)) -> good bd g (bk_sc g) q) ->
+    bk_err (updateScores rq bd g start) = 0%N ->
+    GI (updateScores rq bd g start).
+  Proof.
+    intros g start I Ks W Pa NN Fin Sz G E.
+    destruct (updateScores_fields rq bd g start) as [K [F [C [P [R [D Pe]]]]]].
+    destruct (updateScores_good succ rk Hrk rq bd g Hk I start Ks W G E) as [W' G'].
+    constructor.
+    - apply Inv_updateScores. exact I.
+    - exact W'.
+    - intros q Kq. rewrite K in Kq. apply (good_same_static g); try (symmetry; assumption). apply G'. exact Kq.
+    - rewrite D. exact Pa.
+    - rewrite D. exact NN.
+    - intros q Kq. rewrite K in *. unfold depth. rewrite D. apply Fin. exact Kq.
+    - rewrite K. exact Sz.
+  Qed.
+
+  Lemma parity_keys : forall g, GI g -> forall q, In q (bk_keys g) -> Z.even (depth g q) = wtm q.
+  Proof.
+    intros g G q Kq. apply (gi_par g G). pose proof (gi_fin g G q Kq). pose proof (gi_size g G). unfold depth in *. lia.
+  Qed.
+
+  (** ** setSearchResult *)
+  Lemma info_set_info_other : forall g h i q, q <> h -> info (set_info g h i) q = info g q.
+  Proof. intros. unfold info, set_info, info_of. cbn [bk_info]. rewrite nget_nset_other by assumption. reflexivity. Qed.
+
+  Lemma GI_opSet : forall g h mv s t, GI g -> In h (bk_keys g) -> bk_err (opSet rq bd g h mv s t) = 0%N -> GI (opSet rq bd g h mv s t).
+  Proof.
+    intros g h mv s t G Kh E. unfold opSet in *.
+    set (g1 := set_info g h _) in *.
+    apply GI_updateScores; try exact E.
+    - apply Inv_set_info; [apply (gi_inv g G)|exact Kh].
+    - exact Kh.
+    - apply (gi_wfc g G).
+    - apply (gi_par g G).
+    - apply (gi_nonneg g G).
+    - apply (gi_fin g G).
+    - apply (gi_size g G).
+    - intros q Kq Hq _. apply (good_transfer g g1 q); try reflexivity.
+      + unfold g1. rewrite info_set_info_other by exact Hq. reflexivity.
+      + unfold g1. rewrite info_set_info_other by exact Hq. reflexivity.
+      + apply (gi_good g G). exact Kq.
+  Qed.
+
+  (** ** pending marks *)
+  Lemma mem_add_key : forall q h l, q <> h -> mem q (add_key h l) = mem q l.
+  Proof.
+    intros q h l Hq. unfold add_key. destruct (mem h l); [reflexivity|].
+    unfold mem. cbn [existsb]. destruct (N.eqb_spec q h); [contradiction|reflexivity].
+  Qed.
+  Lemma mem_filter_ne : forall q h l, q <> h -> mem q (filter (fun x => negb (N.eqb x h)) l) = mem q l.
+  Proof.
+    intros q h l Hq. unfold mem. induction l as [|x t IH]; cbn [filter existsb]; [reflexivity|].
+    destruct (N.eqb_spec x h) as [->|Hx]; cbn [negb existsb].
+    - rewrite IH. destruct (N.eqb_spec q h); [contradiction|reflexivity].
+    - rewrite IH. reflexivity.
+  Qed.
+
+  Lemma GI_set_pending : forall g h ps, GI g -> In h (bk_keys g) ->
+    (forall q, q <> h -> mem q ps = mem q (bk_pending g)) ->
+    bk_err (updateScores rq bd (set_pending g ps) h) = 0%N -> GI (updateScores rq bd (set_pending g ps) h).
+  Proof.
+    intros g h ps G Kh Hps E.
+    apply GI_updateScores; try exact E.
+    - apply Inv_set_pending. apply (gi_inv g G).
+    - exact Kh.
+    - apply (gi_wfc g G).
+    - apply (gi_par g G).
+    - apply (gi_nonneg g G).
+    - apply (gi_fin g G).
+    - apply (gi_size g G).
+    - intros q Kq Hq _. apply (good_transfer g (set_pending g ps) q); try reflexivity.
+      + cbn [set_pending bk_pending]. symmetry. apply Hps. exact Hq.
+      + apply (gi_good g G). exact Kq.
+  Qed.
+
+  (** ** addPosToBook *)
+  Lemma parents_link_incl : forall g p m c x q, In x (parents g q) -> In x (parents (link g p m c) q).
+  Proof.
+    intros g p m c x q H. rewrite parents_link. destruct (N.eqb_spec q c) as [->|_]; [apply ins_parent_in; right; exact H|exact H].
+  Qed.
+
+  Lemma fold_plinks : forall pl g h,
+    Inv succ g -> In h (bk_keys g) ->
+    (forall m p, In (m, p) pl -> In p (bk_keys g) /\ succ p m = Some h) ->
+    Par (bk_depth g) -> NonNeg (bk_depth g) ->
+    let g' := fold_left (fun g mp => link g (snd mp) (fst mp) h) pl g in
+    Inv succ g' /\ Par (bk_depth g') /\ NonNeg (bk_depth g') /\
+    bk_keys g' = bk_keys g /\ bk_info g' = bk_info g /\ bk_sc g' = bk_sc g /\ bk_pending g' = bk_pending g /\
+    (forall q, ~ In q (map snd pl) -> children g' q = children g q) /\
+    (forall q, depth g' q <= depth g q) /\
+    (forall m p, In (m, p) pl -> depth g' h <= depth g p + 1 /\ In (m, p) (parents g' h)) /\
+    (forall x, In x (parents g h) -> In x (parents g' h)) /\
+    (bk_err g <= bk_err g')%N.
+  Proof.
+    induction pl as [|[m p] t IH]; intros g h I Kh Hpl Pa NN; cbn [fold_left].
+    - split; [exact I|]. split; [exact Pa|]. split; [exact NN|]. do 4 (split; [reflexivity|]).
+      split; [intros; reflexivity|]. split; [intro; lia|]. split; [intros m p []|]. split; [auto|lia].
+    - cbn [fst snd]. destruct (Hpl m p (or_introl eq_refl)) as [Kp Sp].
+      destruct (link_step g p m h I Kp Kh Sp Pa NN) as [I1 [Pa1 [NN1 [K1 [F1 [S1 [Pe1 [R1 [C1 [D1 [B1 E1]]]]]]]]]]].
+      set (g1 := link g p m h) in *.
+      destruct (IH g1 h I1) as [I2 [Pa2 [NN2 [K2 [F2 [S2 [Pe2 [C2 [D2 [B2 [P2 E2]]]]]]]]]]]; try assumption.
+      { rewrite K1. exact Kh. }
+      { intros m' p' H. rewrite K1. apply Hpl. right; exact H. }
+      split; [exact I2|]. split; [exact Pa2|]. split; [exact NN2|].
+      split; [rewrite K2; exact K1|]. split; [rewrite F2; exact F1|]. split; [rewrite S2; exact S1|].
+      split; [rewrite Pe2; exact Pe1|].
+      split.
+      { intros q Hq. cbn [map snd] in Hq. rewrite C2 by (intro H; apply Hq; right; exact H).
+        apply C1. intro E; apply Hq; left; symmetry; exact E. }
+      split; [intro q; specialize (D2 q); specialize (D1 q); lia|].
+      split.
+      { intros m' p' [E|H].
+        - inversion E; subst m' p'. split.
+          + specialize (D2 h). lia.
+          + apply P2. unfold g1. rewrite parents_link, N.eqb_refl. apply ins_parent_in. left; reflexivity.
+        - destruct (B2 m' p' H) as [X Y]. split; [specialize (D1 p'); lia|exact Y]. }
+      split; [intros x H; apply P2; apply parents_link_incl; exact H|lia].
+  Qed.
+
+  Lemma fold_clinks : forall cl g h,
+    Inv succ g -> In h (bk_keys g) -> succ_list_ok succ h cl ->
+    Par (bk_depth g) -> NonNeg (bk_depth g) ->
+    let g' := setChildRefs g h cl in
+    Inv succ g' /\ Par (bk_depth g') /\ NonNeg (bk_depth g') /\
+    bk_keys g' = bk_keys g /\ bk_info g' = bk_info g /\ bk_sc g' = bk_sc g /\ bk_pending g' = bk_pending g /\
+    (forall q, q <> h -> children g' q = children g q) /\
+    (forall q, depth g' q <= depth g q) /\
+    parents g' h = parents g h /\
+    (bk_err g <= bk_err g')%N.
+  Proof.
+    unfold setChildRefs. induction cl as [|[m c] t IH]; intros g h I Kh Hs Pa NN; cbn [fold_left].
+    - split; [exact I|]. split; [exact Pa|]. split; [exact NN|]. do 4 (split; [reflexivity|]).
+      split; [intros; reflexivity|]. split; [intro; lia|]. split; [reflexivity|lia].
+    - cbn [fst snd]. destruct (has_node g c) eqn:HN.
+      + assert (Kc : In c (bk_keys g)) by (apply (inv_keys succ g I); exact HN).
+        assert (Sc : succ h m = Some c) by (apply Hs; left; reflexivity).
+        destruct (link_step g h m c I Kh Kc Sc Pa NN) as [I1 [Pa1 [NN1 [K1 [F1 [S1 [Pe1 [R1 [C1 [D1 [B1 E1]]]]]]]]]]].
+        set (g1 := link g h m c) in *.
+        destruct (IH g1 h I1) as [I2 [Pa2 [NN2 [K2 [F2 [S2 [Pe2 [C2 [D2 [P2 E2]]]]]]]]]]; try assumption.
+        { rewrite K1. exact Kh. }
+        { intros m' c' H. apply Hs. right; exact H. }
+        split; [exact I2|]. split; [exact Pa2|]. split; [exact NN2|].
+        split; [rewrite K2; exact K1|]. split; [rewrite F2; exact F1|]. split; [rewrite S2; exact S1|].
+        split; [rewrite Pe2; exact Pe1|].
+        split; [intros q Hq; rewrite C2 by exact Hq; apply C1; exact Hq|].
+        split; [intro q; specialize (D2 q); specialize (D1 q); lia|].
+        split; [|lia].
+        rewrite P2. unfold g1. rewrite parents_link.
+        destruct (N.eqb_spec h c) as [E|_]; [|reflexivity].
+        exfalso. subst c. pose proof (Hrk h m h Sc). lia.
+      + apply IH; try assumption. intros m' c' H. apply Hs. right; exact H.
+  Qed.
+
+  Lemma wfc_default : IGNORE_SCORE <= INVALID_SCORE.
+  Proof. rewrite IGNORE_val, INVALID_val. lia. Qed.
+
+  Lemma GI_opAdd : forall g h addr pl cl,
+    GI g -> op_wf succ g (OpAdd h addr pl cl) -> pl <> [] -> Z.of_nat (length (bk_keys g)) + 1 < INT_MAX ->
+    bk_err (opAdd rq bd g h addr pl cl) = 0%N -> GI (opAdd rq bd g h addr pl cl).
+  Proof.
+    intros g h addr pl cl G [Hfresh [Hpl Hcl]] Hne Hsz E. unfold opAdd in *.
+    pose proof (gi_inv g G) as I.
+    destruct (no_links_outside succ g h I Hfresh) as [C0 P0].
+    set (g0 := new_node g h addr (mkInfo addr 0 INVALID_SCORE 0 ST_EMPTY) INT_MAX default_scores) in *.
+    assert (I0 : Inv succ g0) by (apply Inv_new_node; assumption).
+    assert (K0 : bk_keys g0 = h :: bk_keys g).
+    { unfold g0, new_node. cbn [bk_keys]. unfold add_key.
+      destruct (mem h (bk_keys g)) eqn:M; [apply mem_in in M; contradiction|reflexivity]. }
+    assert (Kh0 : In h (bk_keys g0)) by (rewrite K0; left; reflexivity).
+    assert (D0 : forall q, q <> h -> depth g0 q = depth g q).
+    { intros q Hq. unfold depth, g0, new_node. cbn [bk_depth]. apply depth_of_set_other. exact Hq. }
+    assert (Pa0 : Par (bk_depth g0)).
+    { destruct (gi_par g G) as [B Pr]. unfold g0, new_node. cbn [bk_depth]. split; intro q.
+      - destruct (N.eq_dec q h) as [->|Hq]; [rewrite depth_of_set_same; lia|rewrite depth_of_set_other by exact Hq; apply B].
+      - destruct (N.eq_dec q h) as [->|Hq]; [rewrite depth_of_set_same; lia|rewrite depth_of_set_other by exact Hq; apply Pr]. }
+    assert (NN0 : NonNeg (bk_depth g0)).
+    { intro q. unfold g0, new_node. cbn [bk_depth].
+      destruct (N.eq_dec q h) as [->|Hq]; [rewrite depth_of_set_same; rewrite INT_MAX_val; lia|rewrite depth_of_set_other by exact Hq; apply (gi_nonneg g G)]. }
+    destruct (fold_plinks pl g0 h I0 Kh0) as [I2 [Pa2 [NN2 [K2 [F2 [S2 [Pe2 [C2 [D2 [B2 [_ E2]]]]]]]]]]]; try assumption.
+    { intros m p H. destruct (Hpl m p H) as [A B]. split; [rewrite K0; right; exact A|exact B]. }
+    set (g2 := fold_left (fun g mp => link g (snd mp) (fst mp) h) pl g0) in *.
+    destruct (fold_clinks cl g2 h I2) as [I3 [Pa3 [NN3 [K3 [F3 [S3 [Pe3 [C3 [D3 [P3 E3]]]]]]]]]]; try assumption.
+    { rewrite K2. exact Kh0. }
+    set (g3 := setChildRefs g2 h cl) in *.
+    assert (Kall : bk_keys g3 = h :: bk_keys g) by (rewrite K3, K2; exact K0).
+    (* the invariant after updateScores *)
+    assert (G4 : GI (updateScores rq bd g3 h)).
+    { apply GI_updateScores.
+      - exact I3.
+      - rewrite Kall. left; reflexivity.
+      - rewrite S3, S2. unfold g0, new_node. cbn [bk_sc]. intro x.
+        destruct (N.eq_dec x h) as [->|Hx]; [rewrite scof_set_same; cbn; split; apply wfc_default|].
+        rewrite scof_set_other by exact Hx. apply (gi_wfc g G).
+      - exact Pa3.
+      - exact NN3.
+      - intros q Kq. rewrite Kall in *. cbn [length]. rewrite Nat2Z.inj_succ.
+        destruct Kq as [<-|Kq].
+        + destruct pl as [|[m p] t]; [contradiction|].
+          destruct (B2 m p (or_introl eq_refl)) as [Bh _]. destruct (Hpl m p (or_introl eq_refl)) as [Kp _].
+          assert (Hp : p <> h) by (intro; subst; contradiction).
+          pose proof (gi_fin g G p Kp). specialize (D3 h). rewrite (D0 p Hp) in Bh. lia.
+        + assert (Hq : q <> h) by (intro; subst; contradiction).
+          pose proof (gi_fin g G q Kq). specialize (D3 q). specialize (D2 q). rewrite (D0 q Hq) in D2. lia.
+      - rewrite Kall. cbn [length]. rewrite Nat2Z.inj_succ. lia.
+      - intros q Kq Hq Hnp. rewrite Kall in Kq. destruct Kq as [E'|Kq]; [congruence|].
+        assert (Hnpl : ~ In q (map snd pl)).
+        { intro H. apply Hnp. apply in_map_iff in H. destruct H as [[m p] [Ep Hin]]. cbn [snd] in Ep. subst p.
+          apply in_map_iff. exists (m, q). split; [reflexivity|]. rewrite P3. apply (B2 m q Hin). }
+        assert (Cq : children g3 q = children g q).
+        { rewrite C3 by exact Hq. rewrite C2 by exact Hnpl.
+          unfold children, g0, new_node. cbn [bk_children]. unfold links_of. rewrite nget_nset_other by exact Hq. reflexivity. }
+        assert (Sq : forall x, x <> h -> score_of g3 x = score_of g x).
+        { intros x Hx. unfold score_of. rewrite S3, S2. unfold g0, new_node. cbn [bk_sc]. apply scof_set_other. exact Hx. }
+        apply (good_transfer g g3 q).
+        + unfold info. rewrite F3, F2. unfold g0, new_node. cbn [bk_info]. unfold info_of. rewrite nget_nset_other by exact Hq. reflexivity.
+        + unfold info. rewrite F3, F2. unfold g0, new_node. cbn [bk_info]. unfold info_of. rewrite nget_nset_other by exact Hq. reflexivity.
+        + symmetry. exact Cq.
+        + rewrite Pe3, Pe2. reflexivity.
+        + rewrite (parity_keys g G q Kq). symmetry. apply Pa3.
+          pose proof (gi_fin g G q Kq). pose proof (gi_size g G). specialize (D3 q). specialize (D2 q). rewrite (D0 q Hq) in D2.
+          unfold depth in *. lia.
+        + rewrite Sq by exact Hq. reflexivity.
+        + intros [m c] Hc. cbn [snd]. rewrite Sq; [reflexivity|].
+          destruct (inv_child succ g I q m c Hc) as [_ [Kc _]]. intro; subst; contradiction.
+        + apply (gi_good g G). exact Kq.
+      - exact E. }
+    (* set_state only changes the state field *)
+    set (g4 := updateScores rq bd g3 h) in *.
+    assert (K4 : In h (bk_keys g4)).
+    { unfold g4. destruct (updateScores_fields rq bd g3 h) as [K _]. rewrite K, Kall. left; reflexivity. }
+    constructor.
+    - unfold set_state. apply Inv_set_info; [apply (gi_inv g4 G4)|exact K4].
+    - apply (gi_wfc g4 G4).
+    - intros q Kq. apply (good_transfer g4 (set_state g4 h ST_INITIALIZED) q); try reflexivity.
+      + unfold set_state. destruct (N.eq_dec q h) as [->|Hq].
+        * unfold info, set_info, info_of. cbn [bk_info]. rewrite nget_nset_same. reflexivity.
+        * rewrite info_set_info_other by exact Hq. reflexivity.
+      + unfold set_state. destruct (N.eq_dec q h) as [->|Hq].
+        * unfold info, set_info, info_of. cbn [bk_info]. rewrite nget_nset_same. reflexivity.
+        * rewrite info_set_info_other by exact Hq. reflexivity.
+      + apply (gi_good g4 G4). exact Kq.
+    - apply (gi_par g4 G4).
+    - apply (gi_nonneg g4 G4).
+    - apply (gi_fin g4 G4).
+    - apply (gi_size g4 G4).
+  Qed.
 End Global.
+
+(** * histories *)
+
+Lemma updateScores_err_mono : forall rq bd g n, (bk_err g <= bk_err (updateScores rq bd g n))%N.
+Proof. intros. unfold updateScores. destruct (fold_left _ _ _) as [sc2 err2]. cbn [set_err set_sc bk_err]. lia. Qed.
+
+Lemma link_err_mono : forall g p m c, (bk_err g <= bk_err (link g p m c))%N.
+Proof. intros. rewrite link_unfold. cbn [bk_err]. lia. Qed.
+
+Lemma setChildRefs_err_mono : forall l g n, (bk_err g <= bk_err (setChildRefs g n l))%N.
+Proof.
+  unfold setChildRefs. induction l as [|mc t IH]; intros g n; cbn [fold_left]; [lia|].
+  destruct (has_node g (snd mc)); [|apply IH]. etransitivity; [apply link_err_mono|apply IH].
+Qed.
+
+Lemma opAdd_err_mono : forall rq bd g h addr pl cl, (bk_err g <= bk_err (opAdd rq bd g h addr pl cl))%N.
+Proof.
+  intros. unfold opAdd. cbn [set_state set_info bk_err].
+  etransitivity; [|apply updateScores_err_mono]. etransitivity; [|apply setChildRefs_err_mono].
+  assert (L : forall l g0, (bk_err g0 <= bk_err (fold_left (fun g mp => link g (snd mp) (fst mp) h) l g0))%N).
+  { induction l as [|mp t IH]; intro g0; cbn [fold_left]; [lia|]. etransitivity; [apply link_err_mono|apply IH]. }
+  etransitivity; [|apply L]. cbn [new_node bk_err]. lia.
+Qed.
+
+Section Histories.
+  Variable succ : N -> N -> option N.
+  Variable rk : N -> Z.
+  Variable wtm : N -> bool.
+  Hypothesis Hrk : forall p m c, succ p m = Some c -> rk p < rk c.
+  Hypothesis Hwtm : forall p m c, succ p m = Some c -> wtm c = negb (wtm p).
+  Variables (rq : bool) (bd : bdata).
+  Hypothesis Hk : costs_nonneg' bd.
+
+  (** operations covered by the global theorem: everything except readFromFile; the book stays
+      below 2^31 - 1 nodes; a new position has at least one book parent (assert in addPosToBook) *)
+  Definition op_ok (g : book) (o : op) : Prop :=
+    op_wf succ g o /\
+    match o with
+    | OpAdd h _ pl _ => pl <> [] /\ Z.of_nat (length (bk_keys g)) + 1 < INT_MAX
+    | OpPend h | OpUnpend h => In h (bk_keys g)
+    | OpSet _ _ _ _ => True
+    | OpRead _ _ _ => False
+    end.
+
+  Fixpoint ops_ok (g : book) (ops : list op) : Prop :=
+    match ops with
+    | [] => True
+    | o :: t => op_ok g o /\ ops_ok (apply_op rq bd g o) t
+    end.
+
+  Lemma apply_op_err_mono : forall g o, op_ok g o -> (bk_err g <= bk_err (apply_op rq bd g o))%N.
+  Proof.
+    intros g o [_ H]. destruct o as [h addr pl cl|h mv s t|h|h|recs addrs sl]; cbn [apply_op].
+    - apply opAdd_err_mono.
+    - unfold opSet. etransitivity; [|apply updateScores_err_mono]. cbn [set_info bk_err]. lia.
+    - unfold opPend. etransitivity; [|apply updateScores_err_mono]. cbn [set_pending bk_err]. lia.
+    - unfold opUnpend. etransitivity; [|apply updateScores_err_mono]. cbn [set_pending bk_err]. lia.
+    - destruct H.
+  Qed.
+
+  Lemma run_err_mono : forall ops g, ops_ok g ops -> (bk_err g <= bk_err (run rq bd g ops))%N.
+  Proof.
+    induction ops as [|o t IH]; intros g H; cbn [run fold_left]; [lia|].
+    destruct H as [H1 H2]. etransitivity; [apply apply_op_err_mono; exact H1|apply IH; exact H2].
+  Qed.
+
+  Lemma GI_apply_op : forall g o, GI succ wtm bd g -> op_ok g o -> bk_err (apply_op rq bd g o) = 0%N ->
+    GI succ wtm bd (apply_op rq bd g o).
+  Proof.
+    intros g o G [W X] E. destruct o as [h addr pl cl|h mv s t|h|h|recs addrs sl]; cbn [apply_op] in *.
+    - destruct X as [X1 X2]. apply (GI_opAdd succ rk wtm Hrk Hwtm rq bd Hk); assumption.
+    - apply (GI_opSet succ rk wtm Hrk rq bd Hk); assumption.
+    - unfold opPend in *. apply (GI_set_pending succ rk wtm Hrk rq bd Hk); try assumption.
+      intros q Hq. apply mem_add_key. exact Hq.
+    - unfold opUnpend in *. apply (GI_set_pending succ rk wtm Hrk rq bd Hk); try assumption.
+      intros q Hq. apply mem_filter_ne. exact Hq.
+    - destruct X.
+  Qed.
+
+  Theorem GI_run : forall ops g, GI succ wtm bd g -> ops_ok g ops -> bk_err (run rq bd g ops) = 0%N ->
+    GI succ wtm bd (run rq bd g ops).
+  Proof.
+    induction ops as [|o t IH]; intros g G H E; cbn [run fold_left] in *; [exact G|].
+    destruct H as [H1 H2].
+    assert (E1 : bk_err (apply_op rq bd g o) = 0%N).
+    { pose proof (run_err_mono t _ H2) as M. unfold run in M. rewrite E in M. lia. }
+    apply IH; [apply GI_apply_op; assumption|exact H2|exact E].
+  Qed.
+
+  (** the fresh book *)
+  Lemma newBook_eq : forall r a,
+    newBook r a = new_node (empty_book r) r a (mkInfo a 0 INVALID_SCORE 0 ST_INITIALIZED) 0 root_scores.
+  Proof.
+    intros r a. unfold newBook, addRootNode. unfold has_node. cbn [empty_book bk_info bk_root].
+    rewrite nget_nempty. reflexivity.
+  Qed.
+
+  Lemma GI_newBook : forall r a, wtm r = true -> GI succ wtm bd (newBook r a).
+  Proof.
+    intros r a Hr.
+    assert (I : Inv succ (newBook r a)) by apply Inv_newBook.
+    rewrite newBook_eq in *.
+    set (g := new_node (empty_book r) r a (mkInfo a 0 INVALID_SCORE 0 ST_INITIALIZED) 0 root_scores) in *.
+    assert (Sc : forall x, score_of g x = if N.eqb x r then root_scores else default_scores).
+    { intro x. unfold score_of, g, new_node. cbn [bk_sc empty_book]. unfold scof. rewrite nget_nset.
+      destruct (N.eqb x r); [reflexivity|]. rewrite nget_nempty. reflexivity. }
+    assert (Dp : forall x, depth g x = if N.eqb x r then 0 else INT_MAX).
+    { intro x. unfold depth, g, new_node. cbn [bk_depth empty_book]. unfold depth_of. rewrite nget_nset.
+      destruct (N.eqb x r); [reflexivity|]. rewrite nget_nempty. reflexivity. }
+    assert (Ch : children g r = []).
+    { unfold children, g, new_node. cbn [bk_children]. unfold links_of. rewrite nget_nset_same. reflexivity. }
+    assert (In' : info g r = mkInfo a 0 INVALID_SCORE 0 ST_INITIALIZED).
+    { unfold info, g, new_node. cbn [bk_info]. unfold info_of. rewrite nget_nset_same. reflexivity. }
+    constructor.
+    - exact I.
+    - intro x. fold (score_of g x). rewrite Sc. destruct (N.eqb x r); cbn; split; apply wfc_default.
+    - intros q Kq. unfold g, new_node in Kq. cbn [bk_keys empty_book add_key mem existsb] in Kq.
+      destruct Kq as [<-|[]].
+      unfold good.
+      assert (E1 : eq_negamax (set_sc g (bk_sc g)) r = true).
+      { unfold eq_negamax, own_score. change (info (set_sc g (bk_sc g)) r) with (info g r).
+        change (children (set_sc g (bk_sc g)) r) with (children g r).
+        change (score_of (set_sc g (bk_sc g)) r) with (score_of g r).
+        rewrite In', Ch, Sc, N.eqb_refl. reflexivity. }
+      assert (E2 : forall w, eq_cost bd (set_sc g (bk_sc g)) r w = true).
+      { intro w. unfold eq_cost, choices, own_choice, node_cost.
+        change (info (set_sc g (bk_sc g)) r) with (info g r).
+        change (children (set_sc g (bk_sc g)) r) with (children g r).
+        change (score_of (set_sc g (bk_sc g)) r) with (score_of g r).
+        change (bk_pending (set_sc g (bk_sc g))) with (@nil N).
+        rewrite In', Ch, Sc, N.eqb_refl. destruct w; reflexivity. }
+      split; [exact E1|split; apply E2].
+    - split; intro q; fold (depth g q); rewrite Dp; destruct (N.eqb_spec q r) as [->|_]; rewrite ?INT_MAX_val; try lia.
+      intros _. rewrite Hr. reflexivity.
+    - intro q. fold (depth g q). rewrite Dp. destruct (N.eqb q r); rewrite ?INT_MAX_val; lia.
+    - intros q Kq. unfold g, new_node in Kq. cbn [bk_keys empty_book add_key mem existsb] in Kq.
+      destruct Kq as [<-|[]]. rewrite Dp, N.eqb_refl. unfold g, new_node. cbn. lia.
+    - unfold g, new_node. cbn. rewrite INT_MAX_val. lia.
+  Qed.
+
+  (** the global theorem that is proved: negamax, both expansion costs and links, after every
+      history of add / set / pending operations *)
+  Theorem fixpoint_partial : forall root addr ops,
+    wtm root = true ->
+    ops_ok (newBook root addr) ops ->
+    let g := run rq bd (newBook root addr) ops in
+    bk_err g = 0%N ->
+    forall q, In q (bk_keys g) ->
+      eq_negamax g q = true /\ eq_cost bd g q true = true /\ eq_cost bd g q false = true /\ eq_links g q = true.
+  Proof.
+    intros root addr ops Hr W g E q Kq.
+    assert (G : GI succ wtm bd g) by (apply GI_run; [apply GI_newBook; exact Hr|exact W|exact E]).
+    destruct (gi_good succ wtm bd g G q Kq) as [A [B C]].
+    split; [exact A|]. split; [exact B|]. split; [exact C|].
+    apply (Inv_eq_links succ g (gi_inv succ wtm bd g G)). exact Kq.
+  Qed.
+End Histories.
